@@ -4,7 +4,7 @@ Each variant is applied to a scratch copy of /repo's HEAD (outside /repo and /ve
 and the copy is deleted.  Usage: benign.py [name...]   (not a property check; not registered in MANIFEST)"""
 import os, re, shutil, subprocess, sys, json
 ROOT = os.path.dirname(os.path.dirname(os.path.abspath(__file__)))
-SCRATCH = "/tmp/ckc-benign"
+SCRATCH = "/tmp/ckc-benign-%d" % os.getpid()
 
 
 def sub(path, old, new, count=1):
@@ -180,6 +180,7 @@ def main():
                 shutil.rmtree(d, ignore_errors=True)
     json.dump(results, open(os.path.join(ROOT, "selftest", "benign_results.json"), "w"), indent=1)
     # evidence files were rewritten against scratch copies: regenerate against /repo is the caller's job
+    shutil.rmtree(SCRATCH, ignore_errors=True)
     bad = {k: v for k, v in results.items() if v}
     print("variants: %d, with alarms: %d" % (len(results), len(bad)))
 
